@@ -68,6 +68,7 @@ impl Interner {
 }
 
 const OR_CLOSE: &str = "OR_CLOSE";
+const COMMA_SOLE: &str = "COMMA_OF_ONE_ELEMENT_TUPLE";
 
 /// The token table starts with the kinds FormatRel.tla knows by number:
 /// 1 = `,`   2 = `)`   3 = `]`   4 = `}`   5 = `|` that closes a lambda parameter list
@@ -116,6 +117,8 @@ fn lex_text(text: &str) -> Lexed {
 struct TreeFacts {
     /// start offsets of `|` tokens that close a lambda parameter list
     closing_or: HashSet<u32>,
+    /// start offsets of the `,` of one-element tuple expressions `(x,)`: not an optional separator (`(x)` is not a tuple)
+    sole_commas: HashSet<u32>,
     /// byte ranges of USE items and MODIFIER_LIST nodes
     use_ranges: Vec<(u32, u32)>,
     /// per MODIFIER_LIST (outside `use` items): the byte ranges of its MODIFIER nodes
@@ -149,6 +152,18 @@ fn walk(node: &SyntaxNode, facts: &mut TreeFacts, in_use: bool) {
             .map(|n| (n.span().start(), n.span().end()))
             .collect();
         facts.modifier_lists.push(mods);
+    }
+    if kind == TokenKind::TUPLE_EXPR {
+        let items: Vec<SyntaxNode> = node.children().filter(|n| n.syntax_kind() == TokenKind::LIST_ITEM).collect();
+        if items.len() == 1 {
+            for el in items[0].children_with_tokens() {
+                if let SyntaxElement::Token(t) = el {
+                    if t.syntax_kind() == TokenKind::COMMA {
+                        facts.sole_commas.insert(t.offset().value());
+                    }
+                }
+            }
+        }
     }
     if kind == TokenKind::MATCH_EXPR {
         let mut last_arm_blocklike = false;
@@ -217,7 +232,8 @@ fn token_ids(lx: &Lexed, facts: Option<&TreeFacts>, toks: &mut Interner) -> Vec<
         .iter()
         .map(|(k, t, off)| {
             let closing = k == "OR" && facts.map(|f| f.closing_or.contains(off)).unwrap_or(false);
-            let kind = if closing { OR_CLOSE } else { k.as_str() };
+            let sole = k == "COMMA" && facts.map(|f| f.sole_commas.contains(off)).unwrap_or(false);
+            let kind = if closing { OR_CLOSE } else if sole { COMMA_SOLE } else { k.as_str() };
             toks.id(&format!("{}\u{0}{}", kind, t))
         })
         .collect()
@@ -574,6 +590,8 @@ fn cmd_mutants(args: Vec<String>) {
     let outdir = &args[1];
     let seed: u64 = args[2].parse().unwrap();
     let per_file: usize = args[3].parse().unwrap();
+    // "every-gap": instead of per_file random mutants, one comment mutant per token boundary and comment style
+    let every_gap = args.get(4).map(|a| a == "every-gap").unwrap_or(false);
     std::fs::create_dir_all(outdir).unwrap();
     let mut rng = StdRng::seed_from_u64(seed);
     let mut manifest = std::io::BufWriter::new(std::fs::File::create(format!("{}/manifest.ndjson", outdir)).unwrap());
@@ -597,8 +615,9 @@ fn cmd_mutants(args: Vec<String>) {
         origins += 1;
         let orig_code = code_seq(&text);
         let orig_comments = lex_text(&text).comments.len();
-        for k in 0..per_file {
-            let kind = kinds[(k + rng.random_range(0..kinds.len())) % kinds.len()];
+        let njobs = if every_gap { 2 * (base.toks.len() + 1) } else { per_file };
+        for k in 0..njobs {
+            let kind = if every_gap { kinds[3 + k % 2] } else { kinds[(k + rng.random_range(0..kinds.len())) % kinds.len()] };
             let mut p = Pieces { toks: base.toks.clone(), gaps: base.gaps.clone(), tail: base.tail.clone() };
             let n = p.toks.len();
             let mut where_ = json!(null);
@@ -629,7 +648,7 @@ fn cmd_mutants(args: Vec<String>) {
                     }
                 }
                 _ => {
-                    let g = rng.random_range(0..=n);
+                    let g = if every_gap { k / 2 } else { rng.random_range(0..=n) };
                     let c = if kind == "comment-block" { format!("/* c{} */", k) } else { format!("// c{}\n", k) };
                     // keep the surrounding layout, put the comment right before the code token (or at the end)
                     if g == n {
